@@ -517,7 +517,7 @@ func describeDepth(v ssa.Value, d int) string {
 	case *ssa.MakeMap:
 		return "make(" + types.TypeString(x.Type(), relTo) + ")"
 	case *ssa.MakeClosure:
-		return "closure(" + x.Fn.Name() + ")"
+		return "closure(" + nm(x.Fn) + ")"
 	case *ssa.Next:
 		return "next(" + describeDepth(x.Iter, d-1) + ")"
 	case *ssa.Range:
@@ -537,7 +537,7 @@ func describeCall(cc *ssa.CallCommon, d int) string {
 	name := ""
 	switch f := cc.Value.(type) {
 	case *ssa.Function:
-		name = f.Name()
+		name = nm(f)
 		if f.Signature.Recv() != nil && len(args) > 0 {
 			return args[0] + "." + name + "(" + strings.Join(args[1:], ", ") + ")"
 		}
